@@ -41,6 +41,20 @@ def make_cases(ctx):
     n = ctx.pick(4000, 60000)
     for i in range(n):
         yield "p%d" % i, {"i": i}
+    # one hash only for the signature family of the server's key, on either
+    # side, for every family and hash
+    for fam, keys in (("rsa", ["rsa", "rsapss"]),
+                      ("ecdsa", ["ecdsa256", "ecdsa384", "ecdsa521"]),
+                      ("dsa", ["dsa"])):
+        for h in ("sha512", "sha384", "sha256", "sha224", "sha1"):
+            for side in ("client", "server"):
+                for dver in ((3, 3), (3, 4)):
+                    if dver == (3, 4) and (fam == "dsa" or
+                                           h in ("sha1", "sha224")):
+                        continue
+                    skey = keys[(len(h) + len(side) + dver[1]) % len(keys)]
+                    yield "dsig-%s-%s-%s-%d" % (fam, h, side, dver[1]), {
+                        "dsig": [fam, h, side, dver, skey]}
     # the same negotiation started through the integration helper that the
     # stdlib-client wrappers (HTTP, SMTP, POP3, IMAP, XML-RPC) share
     for flav in ("cert", "srp", "anon", "cert_clientauth"):
@@ -219,12 +233,8 @@ def run_dres(ctx, cid, P):
     resumed_agreement(ctx, p, fl, fkey, desc, want=first, cauth=cauth)
 
 
-def run_case(ctx, cid, P):
-    if "dres" in P:
-        return run_dres(ctx, cid, P)
-    if "helper" in P:
-        return run_helper(ctx, cid, P)
-    rng = ctx.rng
+def draw(rng):
+    """random pair of settings and flavour"""
     p_keep = rng.choice([0.3, 0.5, 0.7, 0.85])
     cd, cs = policy.gen_valid(rng, p_keep=p_keep)
     sd, ss = policy.gen_valid(rng, p_keep=p_keep)
@@ -279,6 +289,33 @@ def run_case(ctx, cid, P):
             cache = SessionCache()
         else:
             ss.ticketKeys = TK
+    return (cd, cs, sd, ss, kind, skey, ckey, req_cert, alpn_c, alpn_s, npn_c,
+            npn_s, sni, resume, cache)
+
+
+def run_case(ctx, cid, P):
+    if "dres" in P:
+        return run_dres(ctx, cid, P)
+    if "helper" in P:
+        return run_helper(ctx, cid, P)
+    rng = ctx.rng
+    if "dsig" in P:
+        # directed: one side allows exactly one hash for the signature
+        # family of the server's key; everything else is default
+        fam, h, side, dver, skey = P["dsig"]
+        attr = {"rsa": "rsaSigHashes", "ecdsa": "ecdsaSigHashes",
+                "dsa": "dsaSigHashes"}[fam]
+        d1 = {attr: [h], "minVersion": tuple(dver), "maxVersion": tuple(dver)}
+        d0 = {"minVersion": tuple(dver), "maxVersion": tuple(dver)}
+        cd, sd = (d1, d0) if side == "client" else (d0, d1)
+        cs, ss = policy.build(cd), policy.build(sd)
+        kind, ckey, req_cert = "cert", None, False
+        alpn_c = alpn_s = npn_c = npn_s = sni = None
+        resume, cache = False, None
+        ctx.count("directed_signature_policies")
+    else:
+        (cd, cs, sd, ss, kind, skey, ckey, req_cert, alpn_c, alpn_s, npn_c,
+         npn_s, sni, resume, cache) = draw(rng)
     try:
         vcs, vss = cs.validate(), ss.validate()
     except ValueError:
